@@ -248,10 +248,10 @@ def _collect_worker(job):
     return res
 
 
-def expected_reads(w):
+def expected_reads(w, reads=None):
     exp = Counter()
     cats = Counter()
-    for r in w.reads:
+    for r in (w.reads if reads is None else reads):
         if r.flag & 4:
             cats["unaligned"] += 1
             continue
@@ -404,6 +404,56 @@ def run(chk, scratch):
                 chk.violation("log-statistics:" + cat, "%s: log says %s: %d, the BAM has %d" % (desc, name, got, cats.get(cat, 0)), wit)
         if chk.violations and not getattr(chk, "witness_files", None):
             chk.witness_files = [os.path.join(d, f) for f in ("g.fa", "a.gtf", "r.bam", "r.bam.bai")]
+    # one run over several experiments: every experiment's statistics and outputs are about its own files only
+    def multi(i):
+        seed = chk.seed * 1000 + 800 + i
+        d = os.path.join(scratch, "multi%d" % i)
+        w, clusters = coverage_world(seed, kind_sets[(i + 2) % len(kind_sets)], annotated=True)
+        pipeline.write_world(w, d)
+        names = ["EXA", "EXB", "EXC"]
+        # unequal shares; the unmapped records all go to the first two experiments
+        lst, per = pipeline.write_experiments(w, d, names, lambda e, k, r: (k % 6 in ((0, 1, 2), (3, 4), (5,))[e]) if not r.flag & 4 else k % 2 == e)
+        extra = ["--high_memory"] if i % 2 else []
+        r = pipeline.run(d, os.path.join(d, "out"), threads=1 + i % 2, bam_list=lst, extra=extra + ["--no_model_construction"])
+        return i, d, w, names, per, seed, extra, r
+    experiments_judged = 0
+    for i, d, w, names, per, seed, extra, r in runner.parallel(multi, list(range(3 if thorough else 1)), workers=3):
+        desc = "CLI run over 3 experiments, world %d %s" % (seed, " ".join(extra))
+        wit = {"world_seed": seed, "experiments": names, "extra": extra}
+        if r["rc"] is None:
+            chk.inconclusive.append("watchdog expired: " + desc)
+            continue
+        if r["rc"] != 0:
+            chk.violation("run-failed", "%s: %s" % (desc, pipeline.fail_text(r)), wit)
+            continue
+        log = pipeline.Outputs(os.path.join(d, "out")).log()
+        blocks = log.split("overall alignment statistics")[1:]
+        if len(blocks) != len(names):
+            chk.inconclusive.append("%s: %d statistics blocks in the log for %d experiments" % (desc, len(blocks), len(names)))
+            continue
+        for name, block in zip(names, blocks):
+            exp, cats = expected_reads(w, per[name])
+            experiments_judged += 1
+            for cat in ("primary", "secondary", "supplementary", "unaligned"):
+                m = re.search(r"- %s: (\d+)" % cat, block[:600])
+                got = int(m.group(1)) if m else 0
+                chk.note()
+                if got != cats.get(cat, 0):
+                    chk.violation("log-statistics:%s:multi-experiment" % cat, "%s: experiment %s: log says %s: %d, its BAM has %d" %
+                                  (desc, name, cat, got, cats.get(cat, 0)), wit)
+            o = pipeline.Outputs(os.path.join(d, "out"), prefix=name)
+            ids = Counter(b.name for b in o.bed())
+            missing = [n for n in exp if n not in ids]
+            foreign = [n for n in ids if n not in exp]
+            chk.note(n=len(exp))
+            if missing:
+                chk.violation("reads-lost:multi-experiment", "%s: experiment %s: %d of its %d reads are not in its corrected_reads.bed, e.g. %s" %
+                              (desc, name, len(missing), len(exp), missing[:3]), wit)
+            if foreign:
+                chk.violation("foreign-reads:multi-experiment", "%s: experiment %s: %d reads of other experiments in its corrected_reads.bed, e.g. %s" %
+                              (desc, name, len(foreign), foreign[:3]), wit)
+    chk.extra["experiments_of_multi_experiment_runs_judged"] = experiments_judged
+    chk.inconclusive_if(experiments_judged == 0, "no multi-experiment run judged")
     chk.extra.update({"reads_accounted": total_reads, "clusters_split_or_single_bin": split_clusters,
                       "records_seen_in_more_than_one_region": multi_region_reads})
     chk.assumptions = ["expected set = mapped, non-supplementary records (MAPQ 60, and MAPQ 0 / 1 for alignments with 3 or more exons, MAPQ 1 for shorter ones); filtered categories are labelled by the generator",
